@@ -1,0 +1,121 @@
+//! Verification hooks (compiled only with `--cfg lora_rs_verif`): drive the MAC core directly and read its
+//! state. Nothing here is reachable in a normal build.
+use super::*;
+use std::format;
+use std::string::String;
+
+pub fn next_fcnt_down(last: Option<u32>, wire: u16) -> Option<u32> {
+    session::verif_next_fcnt_down(last, wire)
+}
+
+pub struct MacHarness {
+    mac: Mac,
+    buf: RadioBuffer<256>,
+    pub downlinks: Vec<Downlink, 8>,
+}
+
+pub struct Tx {
+    pub tx: radio::TxConfig,
+    pub rx1: RfConfig,
+    pub rx2: RfConfig,
+    pub counter: u32,
+    pub frame: std::vec::Vec<u8>,
+}
+
+impl MacHarness {
+    pub fn new(region: region::Configuration, max_power: u8, antenna_gain: i8) -> Self {
+        Self { mac: Mac::new(region, max_power, antenna_gain), buf: RadioBuffer::new(), downlinks: Vec::new() }
+    }
+    pub fn join_otaa<G: RngCore>(&mut self, rng: &mut G, creds: NetworkCredentials) -> Tx {
+        let (tx, w, nonce) = self.mac.join_otaa::<G, 256>(rng, creds, &mut self.buf);
+        Tx { tx, rx1: w.rx1, rx2: w.rx2, counter: nonce as u32, frame: self.buf.as_ref_for_read().to_vec() }
+    }
+    pub fn join_abp(&mut self, nwkskey: NwkSKey, appskey: AppSKey, devaddr: DevAddr) {
+        self.mac.join_abp(nwkskey, appskey, devaddr)
+    }
+    pub fn set_session(&mut self, s: Session) {
+        self.mac.set_session(s)
+    }
+    pub fn session(&self) -> Option<&Session> {
+        self.mac.get_session()
+    }
+    pub fn send<G: RngCore>(&mut self, rng: &mut G, data: &[u8], fport: u8, confirmed: bool) -> core::result::Result<Tx, String> {
+        match self.mac.send::<G, 256>(rng, &mut self.buf, &SendData { data, fport, confirmed }) {
+            Ok((tx, w, fcnt)) => Ok(Tx { tx, rx1: w.rx1, rx2: w.rx2, counter: fcnt, frame: self.buf.as_ref_for_read().to_vec() }),
+            Err(e) => Err(format!("{:?}", e)),
+        }
+    }
+    fn load(&mut self, bytes: &[u8]) -> bool {
+        self.buf.clear();
+        self.buf.extend_from_slice(bytes).is_ok()
+    }
+    pub fn handle_rx(&mut self, bytes: &[u8], snr: i8, rf: &RfConfig) -> String {
+        if !self.load(bytes) {
+            return "BufferTooSmall".into();
+        }
+        format!("{:?}", self.mac.handle_rx::<256, 8>(&mut self.buf, &mut self.downlinks, snr, rf))
+    }
+    #[cfg(feature = "class-c")]
+    pub fn handle_rxc(&mut self, bytes: &[u8], snr: i8, rf: &RfConfig) -> String {
+        if !self.load(bytes) {
+            return "BufferTooSmall".into();
+        }
+        match self.mac.handle_rxc::<256, 8>(&mut self.buf, &mut self.downlinks, snr, rf) {
+            Ok(r) => format!("{:?}", r),
+            Err(e) => format!("Err({:?})", e),
+        }
+    }
+    pub fn buffer_after(&self) -> std::vec::Vec<u8> {
+        self.buf.as_ref_for_read().to_vec()
+    }
+    pub fn rx2_complete(&mut self) -> String {
+        format!("{:?}", self.mac.rx2_complete())
+    }
+    #[cfg(feature = "class-c")]
+    pub fn rxc_config(&self) -> RfConfig {
+        self.mac.get_rxc_config().rf
+    }
+    pub fn rx_delay(&self, join: bool, second: bool) -> u32 {
+        self.mac.get_rx_delay(if join { &Frame::Join } else { &Frame::Data }, if second { &Window::_2 } else { &Window::_1 })
+    }
+    pub fn set_datarate(&mut self, dr: region::DR) {
+        self.mac.configuration.data_rate = dr;
+    }
+    pub fn set_adr(&mut self, enabled: bool) {
+        self.mac.configuration.adr_enabled = enabled;
+        if !enabled && let Some(session) = self.mac.get_session_mut() {
+            session.adr_ack_cnt = 0;
+        }
+    }
+    /// plain-text dump of everything the MAC remembers
+    pub fn snapshot(&self) -> String {
+        let c = &self.mac.configuration;
+        let cfg = format!(
+            "dr={} rx1_delay={} pw={} rx1off={} rx2dr={} rx2f={} adr={}",
+            c.data_rate as u8,
+            c.rx1_delay,
+            c.tx_power.map(|x| x as i64).unwrap_or(-1),
+            c.rx1_dr_offset,
+            c.rx2_data_rate.map(|x| x as u8 as i64).unwrap_or(-1),
+            c.rx2_frequency.map(|x| x as i64).unwrap_or(-1),
+            c.adr_enabled as u8
+        );
+        let st = match &self.mac.state {
+            State::Unjoined => String::from("unjoined"),
+            State::Otaa(_) => String::from("otaa"),
+            State::Joined(s) => format!(
+                "joined addr={} up={} down={} adrcnt={} conf={} owed={} pending={:02x?} nwk={:02x?} app={:02x?}",
+                s.devaddr.value(),
+                s.fcnt_up,
+                s.fcnt_down().map(|x| x as i64).unwrap_or(-1),
+                s.adr_ack_cnt,
+                s.confirmed as u8,
+                s.uplink.confirms_downlink() as u8,
+                s.uplink.mac_commands(),
+                s.nwkskey.as_ref(),
+                s.appskey.as_ref()
+            ),
+        };
+        format!("{} | {} | {}", cfg, st, self.mac.region.verif_snapshot())
+    }
+}
